@@ -5,6 +5,9 @@
 // driver places AFTER all standard headers and BEFORE the amc headers.
 #pragma once
 #include <cstdio>
+#if __cplusplus >= 202002L
+#include <compare>
+#endif
 #include <cstdlib>
 #include <cstring>
 #include <map>
@@ -145,6 +148,9 @@ struct El {
   }
   bool operator==(const El &o) const { return v == o.v; }
   bool operator<(const El &o) const { return v < o.v; }
+#if __cplusplus >= 202002L
+  std::strong_ordering operator<=>(const El &o) const { return v <=> o.v; }
+#endif
   using trivially_relocatable = typename std::conditional<Cat == 1, std::true_type, std::false_type>::type;
 };
 
@@ -156,6 +162,9 @@ struct TC4 {
   int value() const { return v; }
   bool operator==(const TC4 &o) const { return v == o.v; }
   bool operator<(const TC4 &o) const { return v < o.v; }
+#if __cplusplus >= 202002L
+  std::strong_ordering operator<=>(const TC4 &o) const { return v <=> o.v; }
+#endif
 };
 struct TC2 {
   short v;
@@ -164,6 +173,9 @@ struct TC2 {
   int value() const { return v; }
   bool operator==(const TC2 &o) const { return v == o.v; }
   bool operator<(const TC2 &o) const { return v < o.v; }
+#if __cplusplus >= 202002L
+  std::strong_ordering operator<=>(const TC2 &o) const { return v <=> o.v; }
+#endif
 };
 // trivially default constructible as well (like int): value-initialisation and default-initialisation differ for it
 struct POD4 {
@@ -173,6 +185,9 @@ struct POD4 {
   int value() const { return v; }
   bool operator==(const POD4 &o) const { return v == o.v; }
   bool operator<(const POD4 &o) const { return v < o.v; }
+#if __cplusplus >= 202002L
+  std::strong_ordering operator<=>(const POD4 &o) const { return v <=> o.v; }
+#endif
 };
 static_assert(std::is_trivially_copyable<TC4>::value && std::is_trivially_copyable<TC2>::value, "TC");
 static_assert(std::is_trivially_default_constructible<POD4>::value && std::is_trivially_copyable<POD4>::value, "POD");
